@@ -87,6 +87,7 @@ type scriptJ struct {
 	Steps    []stepJ `json:"steps"`
 	// Listeners: bound addresses of the listeners given to Serve (default: one wildcard listener).
 	Listeners []string `json:"listeners"`
+	Tags      []string `json:"tags"`
 }
 
 func toBytes(a []int) []byte {
@@ -774,6 +775,13 @@ type endLine struct {
 
 // runScript executes one script inside a fresh bubble and writes its lines.
 func runScript(t *testing.T, sc scriptJ, w *bufio.Writer) {
+	for _, tg := range sc.Tags {
+		if tg == "oneP" {
+			// run-to-block scheduling: a goroutine woken by a channel hand-over runs only
+			// once the waker blocks (one legitimate schedule among many)
+			defer runtime.GOMAXPROCS(runtime.GOMAXPROCS(1))
+		}
+	}
 	enc := func(v any) {
 		b, err := json.Marshal(v)
 		if err != nil {
